@@ -227,7 +227,9 @@ func (c *Copier) CopyReference(obj Reference) (Reference, error) {
 	if err == nil && path != nil {
 		if newRef, ok := c.trans[path.Ref]; ok {
 			for p := path; p != nil; p = p.Parent {
-				c.trans[p.Ref] = newRef
+				if _, done := c.trans[p.Ref]; !done {
+					c.trans[p.Ref] = newRef
+				}
 			}
 			return newRef, nil
 		}
@@ -236,7 +238,9 @@ func (c *Copier) CopyReference(obj Reference) (Reference, error) {
 	c.trans[obj] = newRef
 	if err == nil {
 		for p := path; p != nil; p = p.Parent {
-			c.trans[p.Ref] = newRef
+			if _, done := c.trans[p.Ref]; !done {
+				c.trans[p.Ref] = newRef
+			}
 		}
 	}
 	// a reference to a malformed or undefined source object resolves to
